@@ -293,6 +293,12 @@ def cell_counternull(chk, drv, est, se, sided):
             continue
         chk.d(close(vals[1], 2 * est, rtol=1e-12, atol=1e-15), 'counternull value = 2 * estimate', dict(c, printed=vals))
         chk.d(0.0 <= vals[2] <= 1.0 + 1e-12, 'counternull p-value lies in [0, 1]', dict(c, printed=vals))
+        # documented: the p-value of the counternull 2*estimate under a normal centred at the estimate with the
+        # standard error the limits were built from (Rosenthal & Rubin): Phi(est/se) and its complement
+        up = float(norm.cdf(est / se))
+        doc = {'upper': up, 'lower': 1 - up}.get(sided, 2 * min(up, 1 - up))
+        chk.d(abs(vals[2] - doc) <= 1e-9, 'counternull p-value = documented function of estimate and the standard error '
+              'behind the limits', dict(c, printed=vals, want=doc))
         ps.append((alpha, vals[2]))
     chk.count('calc2:counternull')
     for (a1, p1), (a2, p2) in zip(ps, ps[1:]):
